@@ -464,4 +464,40 @@ theorem invgamma_monotone_and_step_error {g : ℝ → ℝ} (hgpos : ∀ x, 0 < g
     simp only [invgammaRe, interpolatorApply, if_true, TranscReal.exp_eq]
     rw [abs_le]; constructor <;> nlinarith
 
+/-- `interpolator(..., return_inverse=True)`: `inverse_interp` undoes `interp` between the first and the last grid point of a
+    strictly increasing table (all table lengths) -/
+theorem inverse_roundtrip_interp {K : Type} [Field K] [LinearOrder K] [IsStrictOrderedRing K] (n0 : K × K)
+    (rest : List (K × K)) (hinc : StrictInc n0 rest) {x : K} (h0 : n0.1 ≤ x) (h1 : x ≤ (lastNode n0 rest).1) :
+    interpolatorInverse (fun t => t) (interpolatorApply (fun t => t) x n0 rest) n0 rest = x := by
+  have ha : ¬ x < n0.1 := not_lt.mpr h0
+  have hv : ¬ interpFrom x n0.1 n0.2 rest < n0.2 := not_lt.mpr (interpFrom_ge x n0.1 n0.2 rest hinc.inc h0)
+  simp only [interpolatorInverse, interpolatorApply, interp, ha, hv, if_false]
+  exact interpFrom_inverse x n0.1 n0.2 rest hinc h0 h1
+
+/-- `invgamma_invprior` undoes `invgamma_prior` inside the table range: with a location (`loc ≠ 0`, both use the same
+    log-table) and without (`loc = 0`: the prior multiplies the unit-scale table by `scale`, the inverse prior's table has
+    `scale` inside, i.e. every ordinate shifted by `log scale`) -/
+theorem inverse_roundtrip_invgamma (n0 : ℝ × ℝ) (rest : List (ℝ × ℝ)) (hinc : StrictInc n0 rest) {scale : ℝ}
+    (hs : 0 < scale) {x : ℝ} (h0 : n0.1 ≤ x) (h1 : x ≤ (lastNode n0 rest).1) :
+    invgammaInvRe (invgammaRe false scale x n0 rest) n0 rest = x ∧
+      invgammaInvRe (invgammaRe true scale x n0 rest) (n0.1, n0.2 + log scale)
+        (rest.map fun p => (p.1, p.2 + log scale)) = x := by
+  have ha : ¬ x < n0.1 := not_lt.mpr h0
+  constructor
+  · have hv : ¬ interpFrom x n0.1 n0.2 rest < n0.2 := not_lt.mpr (interpFrom_ge x n0.1 n0.2 rest hinc.inc h0)
+    simp only [invgammaInvRe, invgammaRe, interpolatorInverse, interpolatorApply, interp, ha, if_false,
+      TranscReal.exp_eq, TranscReal.log_eq, log_exp, hv, Bool.false_eq_true]
+    exact interpFrom_inverse x n0.1 n0.2 rest hinc h0 h1
+  · have hsh := hinc.shift (log scale)
+    have hl : x ≤ (lastNode (n0.1, n0.2 + log scale) (rest.map fun p => (p.1, p.2 + log scale))).1 := by
+      rw [lastNode_shift]; exact h1
+    have key := interpFrom_inverse x n0.1 (n0.2 + log scale) _ hsh h0 hl
+    rw [interpFrom_shift] at key
+    have hv : ¬ interpFrom x n0.1 n0.2 rest + log scale < n0.2 + log scale := by
+      have := interpFrom_ge x n0.1 n0.2 rest hinc.inc h0
+      exact not_lt.mpr (by linarith)
+    simp only [invgammaInvRe, invgammaRe, interpolatorInverse, interpolatorApply, interp, ha, if_false, if_true,
+      TranscReal.exp_eq, TranscReal.log_eq, log_mul (exp_pos _).ne' hs.ne', log_exp, hv]
+    exact key
+
 end NiftyVerif.C30
